@@ -28,14 +28,19 @@ fn kind_for(k: usize) -> FaultKind {
 }
 
 fn run_writer(p: &Program, fault: Option<usize>, chunks: &[u16]) -> (Trace, MemDev, Result<(), String>) {
+    run_writer_with(p, fault.map(|k| (k, kind_for(k))), chunks, false)
+}
+
+/// `stubborn`: after the first failing call the caller gives up adding data but still calls the top-level finalize.
+fn run_writer_with(p: &Program, fault: Option<(usize, FaultKind)>, chunks: &[u16], stubborn: bool) -> (Trace, MemDev, Result<(), String>) {
     let dev = MemDev::new();
     {
         let mut st = dev.st.borrow_mut();
-        st.fault_at = fault.map(|k| (k, kind_for(k)));
+        st.fault_at = fault;
         st.chunks = chunks.iter().map(|c| *c as usize).collect();
     }
     let h = dev.handle();
-    let mut tr = Trace { retry_finalize: fault.is_some(), ..Trace::default() };
+    let mut tr = Trace { retry_finalize: fault.is_some(), finalize_after_error: stubborn, ..Trace::default() };
     let r = guard(|| prog::exec(p, dev, &mut tr));
     (tr, h, r)
 }
@@ -100,7 +105,7 @@ impl Check for C16 {
          Other, InvalidInput, InvalidData, UnexpectedEof, PermissionDenied, BrokenPipe, TimedOut, NotFound, WriteZero): the public call \
          during which the fault fired must return Err (iterators Some(Err)), never panic, never report success; a caller stops at the first Err; \
          if top-level finalize reports success the device equals the fault-free file. Faults firing only inside Drop have no call to report to and \
-         are counted, not asserted. Short transfers: the same programs on a device that serves reads and writes in generated chunk sizes (1..) must \
+         are counted, not asserted. A caller that gives up adding data after the first failing call but still calls the top-level finalize (every fault position, also on a short-transfer device): a reported success means a readable file of whole pages. Every device operation interrupted once (ErrorKind::Interrupted): a call fails or all succeed and the file is the fault-free one. Short transfers: the same programs on a device that serves reads and writes in generated chunk sizes (1..) must \
          succeed with a byte-identical file and identical read results. `evaluations` counts programs, `executions_of_code_under_test` counts \
          faulted/chunked executions. Non-trivial: program with >= 40 fault positions in both writer and reader, or a 1-byte chunk schedule."
             .into()
@@ -191,6 +196,56 @@ impl Check for C16 {
         }
         if in_drop > 0 {
             v.label("faults_inside_drop_not_asserted");
+        }
+        // a caller that, after the first failing call, gives up adding data but still calls the top-level finalize:
+        // whenever that finalize reports success the device must hold a complete, readable file
+        // (also on a device with short transfers, where a fault can hit the second part of a page)
+        // (pass 1: pages are written in two parts, 700 + 324 bytes; at most 400 evenly spread fault positions per pass)
+        for (pass, chunks) in [(0, &[][..]), (1, &[700u16][..])] {
+            let (_, hc, _) = run_writer_with(p, None, chunks, false);
+            let n_ops = hc.st.borrow().ops;
+            let stride = (n_ops / 400).max(1);
+            for k in (0..n_ops).step_by(stride) {
+                execs += 1;
+                let (tr, h, r) = run_writer_with(p, Some((k, kind_for(k))), chunks, true);
+                if let Err(pn) = r {
+                    v.fail(format!("device fault at operation {k} (pass {pass}): writer panicked in {}: {pn}", tr.current));
+                    v.execs = execs;
+                    return v;
+                }
+                if tr.finalized_after_error {
+                    v.nt("finalize_after_a_failed_call");
+                    match guard(|| read_scene(MemDev::with_data(h.bytes()))) {
+                        Ok(Ok(_)) if h.bytes().len() % 1024 == 0 => {}
+                        other => {
+                            v.fail(format!(
+                                "device fault at operation {k}{}: {} failed, the top-level finalize called afterwards reported success, but the device does not hold a complete file ({})",
+                                if pass == 1 { " on a device that transfers at most 700 bytes at a time".to_string() } else { String::new() },
+                                tr.error.as_ref().map(|e| e.0.clone()).unwrap_or_default(),
+                                match other { Ok(Err(e)) => e, Err(pn) => pn, _ => "size is not a whole number of pages".into() }
+                            ));
+                            v.execs = execs;
+                            return v;
+                        }
+                    }
+                }
+            }
+        }
+        // a device operation interrupted once (ErrorKind::Interrupted): the call in progress reports an error, or
+        // everything succeeds and the file is the fault-free one
+        for k in 0..wops {
+            execs += 1;
+            let (tr, h, r) = run_writer_with(p, Some((k, FaultKind::Interrupted)), &[], false);
+            if let Err(pn) = r {
+                v.fail(format!("interrupted device operation {k}: writer panicked in {}: {pn}", tr.current));
+                v.execs = execs;
+                return v;
+            }
+            if tr.error.is_none() && tr.finalized && h.bytes() != good {
+                v.fail(format!("device operation {k} reported ErrorKind::Interrupted once: every call reported success but the file differs from the fault-free one"));
+                v.execs = execs;
+                return v;
+            }
         }
         // reader program, fault-free then every fault position
         let (rops, base) = match run_reader(&good, &free, None, &[]) {
